@@ -108,12 +108,20 @@ def h_str(x):
     return StrOf(x) if isinstance(x, SymInt) else str(x)
 
 
+def real_call(f, *a):
+    """the real builtin on concrete values: what it raises is an outcome of the code under test, not of the harness"""
+    try:
+        return f(*a)
+    except Exception as e:
+        raise sem(e)
+
+
 def h_int(x):
     if isinstance(x, StrOf):
         return x.n                   # assumed: int(str(n)) == n
     if isinstance(x, (SymStr, ReprOf, Opaque)):
         raise Unsupported("int() of an opaque string")
-    return int(x)
+    return real_call(int, x)
 
 
 def h_repr(x):
@@ -139,14 +147,14 @@ def h_b64decode(x):
 
 
 def h_float(x):
-    return float(x)
+    return real_call(float, x)
 
 
 def h_complex(a, b=0):
-    return SymComplexV(a, b) if isinstance(a, SymFloat) or isinstance(b, SymFloat) else complex(a, b)
+    return SymComplexV(a, b) if isinstance(a, SymFloat) or isinstance(b, SymFloat) else real_call(complex, a, b)
 
 
-HOOKS = dict(isinstance=h_isinstance, isinf=h_isinf, isnan=h_isnan, str=h_str, int=h_int, repr=h_repr, literal_eval=h_literal_eval,
+HOOKS = dict(isinstance=h_isinstance, isinf=h_isinf, isnan=h_isnan, str=h_str, int=h_int, repr=h_repr, ascii=h_repr, literal_eval=h_literal_eval,
              b64encode=h_b64encode, b64decode=h_b64decode, complex=h_complex, float=h_float)
 
 
@@ -244,9 +252,9 @@ def _register():
                 ctx.prove("roundtrip.frozenset", z3.BoolVal(isinstance(back, frozenset) and back == v))
             else:
                 same(ctx, "roundtrip.value_type_and_bit_exact", v, back)
-        harness("json.constant_codec.roundtrip[%s]" % name, props=["C07"], functions=["code_data._json_data.value_to_json", "code_data._json_data.constant_value_from_json"],
+        harness("json.constant_codec.roundtrip[%s]" % name, props=["C07", "C06", "C15"], functions=["code_data._json_data.value_to_json", "code_data._json_data.constant_value_from_json"],
                 configs="any",
-                assumes=["b64decode(b64encode(b).decode('ascii')) == b", "ast.literal_eval(repr(s)) == s for str", "int(str(n)) == n",
+                assumes=["b64decode(b64encode(b).decode('ascii')) == b", "ast.literal_eval(ascii(s)) == s and ast.literal_eval(repr(s)) == s for str", "int(str(n)) == n",
                          "meta-step: structural induction over the constant datatype (container elements are the hypothesis)"],
                 notes="symbolic payload: the encoded value is plain JSON (string keys, ints within +-2^53, finite floats, valid text) and decodes to the same value, "
                       "type- and bit-exact, NaNs identified; no earlier decoder branch shadows the tag")(h)
@@ -272,6 +280,8 @@ def _instances():
         "Constant(int)": Constant(7, 1), "Constant(tuple)": Constant((1, (2.5, "s"), b"b", None, ...), None), "Constant(frozenset)": Constant(frozenset([1, "a"])),
         "Constant(big)": Constant(2 ** 70), "Constant(float-specials)": Constant((float("inf"), float("-inf"), -0.0, 1j)),
         "Instruction": Instruction("OP", Name("x"), 3, 10, (1, 2)), "Instruction(int arg)": Instruction("CALL", 300, None, None),
+        "Instruction(no arg, line offsets)": Instruction("POP_TOP", NoArg(), None, 7, (0, 3)),
+        "Constant(complex specials)": Constant((complex(0.0, float("inf")), complex(-0.0, 2.0), complex(1.0, -0.0), complex(float("nan"), 0.0))),
         "AdditionalLine": AdditionalLine(5, (1, -2)), "AdditionalLine(None)": AdditionalLine(None),
         "Args": Args(("p",), ("a", "b"), "r", ("k",), "kw"), "Function": Function(Args(("p",)), "doc", "COROUTINE"),
         "CodeData": CodeData(blocks=(body, body), filename="f.py", first_line_number=3, name="nm", stacksize=2, type=Function(Args((), ("a",)), None, None), freevars=("fv",),
@@ -281,7 +291,7 @@ def _instances():
     }
 
 
-@harness("json.dataclass_positions.roundtrip", props=["C07"], functions=["code_data._json_data.value_to_json", "code_data._json_data.code_data_from_json",
+@harness("json.dataclass_positions.roundtrip", props=["C07", "C08", "C15", "C06", "C12"], functions=["code_data._json_data.value_to_json", "code_data._json_data.code_data_from_json",
                                                                             "code_data._json_data.instruction_from_json", "code_data._json_data.arg_from_json",
                                                                             "code_data._json_data.lists_values_to_tuples", "code_data.dataclass_hide_default.field_is_default"],
          configs="any", engine="E2",
@@ -316,7 +326,10 @@ def h_positions(ctx, cfg):
             back = J.code_data_from_json({"blocks": [], "filename": "f", "first_line_number": 1, "name": "n", "stacksize": 1, "type": doc}).type
         else:
             back = None
-        ctx.prove("roundtrip[%s]" % name, z3.BoolVal(back == v and type(back) is type(v)), detail="%r -> %r" % (v, back))
+        ctx.prove("roundtrip[%s]" % name, z3.BoolVal(back == v and type(back) is type(v) and repr(back) == repr(v)), detail="%r -> %r" % (v, back))
+        if ok:
+            again = J.value_to_json(back)
+            ctx.prove("reserializes_to_the_identical_document[%s]" % name, z3.BoolVal(json.dumps(again, sort_keys=True) == json.dumps(doc, sort_keys=True) or "frozenset" in s))
         try:
             hash(back)
             hashable = True
